@@ -47,6 +47,6 @@ Proof.
   rewrite gen_level_for_bin_eq by lia.
   destruct (level_for_bin depth bin) as [l|] eqn:E; [|reflexivity].
   destruct (level_unique_lemma depth bin l Hd E) as [[Hl0 Hl1] _].
-  cbn [bind]. cbv zeta. rewrite gen_first_bin_eq, gen_level_size_eq by lia.
+  cbn [bind]. cbv zeta. rewrite ?gen_first_bin_eq, ?gen_level_size_eq by lia.
   shift_norm. unfold level_size. pow_eq.
 Qed.
